@@ -154,9 +154,9 @@ def river_check():
             if lab not in seen:
                 seen.append(lab)
             n_cases += 1
-            if not same_dict(got, {s: (1.0 if s == lab else 0.0) for s in seen}) and \
-                    not same_dict(got, {s: (1.0 if s == lab else 0.0) for s in dict.fromkeys(seq)}):
-                bad('river-onehot-batch', f"RiverWrapper, list input with labels {seq}: got {gl!r}")
+            if not same_dict(got, {s: (1.0 if s == lab else 0.0) for s in seen}):
+                bad('river-onehot-batch', f"RiverWrapper, list input with labels {seq}: got {gl!r}; row i must be the one-hot over "
+                                          f"the labels seen up to row i (identical to one-at-a-time calls)")
     return n_cases, outcomes
 
 
